@@ -10,6 +10,7 @@ use crate::lockstep;
 use crate::progsweep;
 use crate::docsweep;
 use crate::cont;
+use crate::drops;
 use crate::seqx::Out;
 use serde_json::{json, Value};
 
@@ -246,6 +247,29 @@ pub fn plan(prop: &str, tier: &str) -> Option<Plan> {
                 ],
             })
         }
+        "C19" => {
+            let shapes2: Vec<Vec<(u8, u8)>> = vec![vec![], vec![(0, 1)], vec![(0, 0)], vec![(0, 1), (1, 0)], vec![(0, 1), (0, 0)]];
+            let shapes3: Vec<Vec<(u8, u8)>> = vec![vec![(0, 1), (1, 2)], vec![(0, 1), (1, 2), (2, 0)], vec![(0, 1), (2, 1), (2, 2)]];
+            let mut jobs = Vec::new();
+            for f in ALL {
+                for s in &shapes2 {
+                    let (mh, md) = if tier == "quick" { (4, 5) } else { (5, 7) };
+                    jobs.push(job(prop, "drops", f, tier, json!({"n": 2, "init": s, "max_handles": mh, "max_edges": s.len() + 1, "max_depth": md})));
+                }
+                for s in &shapes3 {
+                    let (mh, md) = if tier == "quick" { (4, 4) } else { (6, 6) };
+                    jobs.push(job(prop, "drops", f, tier, json!({"n": 3, "init": s, "max_handles": mh, "max_edges": s.len() + if tier == "quick" { 0 } else { 1 }, "max_depth": md})));
+                }
+            }
+            Some(Plan {
+                jobs,
+                level: "model_checking".into(),
+                rule: "BFS over (edge list, held handles) states from several initial shapes (no edge, chain, self-loop, 2-cycle, 3-cycle, mixed) of nodes with drop-counting values: operations clone a handle, create a container, insert / remove, connect, disconnect, isolate, keep an Edge from an iterator, keep a Path of a search or cycle search, keep a node found by a search, drop any single held handle, drop the container on another thread (sync flavours); after every step a value must be released iff no held handle (node, container slot, edge, path, search result) mentions its node, never twice, and nodes reached through held handles must be usable; at the end of every history all remaining handles are dropped and every value must have been released exactly once (no clone of a value leaked either). Operations that would walk over a released neighbour are outside the property and disabled by the model. evaluations = histories executed; nontrivial = transitions that drop something".into(),
+                bounds: json!({"quick": "2 nodes: <=4 handles, depth 5; 3 nodes: <=4 handles, depth 4", "thorough": "2 nodes: <=5 handles, depth 7; 3 nodes: <=6 handles, depth 6"}),
+                exhaustive: true,
+                assumptions: vec!["node values are released by Drop of the payload; the tracker distinguishes the original value from clones the library may make".into()],
+            })
+        }
         "C17" => {
             let known = KnownFindings::load(&format!("{}/known_findings.json", crate::verif_dir()));
             let mut jobs = Vec::new();
@@ -297,6 +321,7 @@ pub fn work(job: &Job, out: &mut Out) {
         "csweep" => crate::with_flavor!(job.flavour.as_str(), F => csweep::sweep::<F>(job, out)),
         "sched" => crate::with_sync_flavor!(job.flavour.as_str(), F => sched::sweep::<F>(job, out)),
         "docsweep" => docsweep::sweep(job, out),
+        "drops" => crate::with_flavor!(job.flavour.as_str(), F => drops::explore::<F>(job, out)),
         "cont" => crate::with_flavor!(job.flavour.as_str(), F => cont::explore::<F>(job, out)),
         "progsweep" => match job.property.as_str() {
             "C16" => progsweep::c16(job, out),
@@ -319,6 +344,7 @@ pub fn replay(property: &str, engine: &str, flavour: &str, case: &Value) -> Vec<
         "csweep" => crate::with_flavor!(flavour, F => csweep::replay::<F>(property, case)),
         "sched" => crate::with_sync_flavor!(flavour, F => sched::replay::<F>(property, case)),
         "docsweep" => docsweep::replay(property, case),
+        "drops" => crate::with_flavor!(flavour, F => drops::replay::<F>(property, case)),
         "cont" => crate::with_flavor!(flavour, F => cont::replay::<F>(property, case)),
         "progsweep" => match property {
             "C16" => progsweep::replay_c16(property, case),
